@@ -211,7 +211,10 @@ pub fn count_run(sb: &Sandbox, case: &Case) -> Result<CountRun, String> {
     }
     let m = parse_marker(&sb.marker);
     if out.code != Some(0) {
-        return Err(format!("count run failed (exit {:?}): {:?} {:?}", out.code, m.errors, m.panic));
+        // exit 3 / 5: the interpreter's own oracle (model comparison, reopen audit) failed or fjall
+        // panicked although nothing was injected: that is a violation in its own right
+        let tag = if matches!(out.code, Some(3) | Some(5)) { "UNINJECTED-RUN-FAILED: " } else { "" };
+        return Err(format!("{tag}count run failed (exit {:?}): {:?} {:?}", out.code, m.errors, m.panic));
     }
     let states = read_states(&sb.states);
     if states.len() != case.ops.len() + 1 {
@@ -402,10 +405,11 @@ pub fn shard_e2(def: &E2Def, tier: &str, seed: u64, shard: u32, programs: u32) -
         let cr = match count_run(&sb, &case) {
             Ok(c) => c,
             Err(e) => {
-                *stats.entry("count_run_failed".into()).or_insert(0) += 1;
-                if out.samples.len() < 1 && !e.is_empty() {
-                    stats.entry(format!("count_run_failed:{}", &e[..e.len().min(80)])).or_insert(1);
+                if e.starts_with("UNINJECTED-RUN-FAILED") {
+                    out.failure = Some(uninjected_failure(def.id, &case, &e));
+                    break 'prog;
                 }
+                *stats.entry("count_run_failed".into()).or_insert(0) += 1;
                 continue;
             }
         };
@@ -604,4 +608,14 @@ pub fn check_e2(def: &E2Def, tier: &str, seed: u64) -> i32 {
         return 2;
     }
     crate::driver::exit_code_for_inconclusive(&m)
+}
+
+pub fn uninjected_failure(id: &str, case: &Case, e: &str) -> FailureOut {
+    let msg = format!("without any injected crash or fault: {e}");
+    FailureOut {
+        case: serde_json::to_value(&E2Replay { property: id.into(), case: case.clone(), inject: Inject::default(), cut: None, extra: None, failure: json!({"msg": msg}) }).unwrap(),
+        msg,
+        step: 0,
+        original_msg: String::new(),
+    }
 }
